@@ -447,4 +447,16 @@ pub(crate) fn is_float_lexical(lex: &str) -> bool {
     is_decimal_lexical(mantissa) && exponent.is_none_or(is_integer_lexical)
 }
 
+/// XPath `fn:round` on floating point numbers:
+/// the nearest integral value, halves being rounded towards positive infinity
+/// (`f64::round` rounds them away from zero).
+pub(crate) fn xpath_round(x: f64) -> f64 {
+    let r = x.round();
+    if x < 0.0 && r - x == -0.5 {
+        (r + 1.0).copysign(x)
+    } else {
+        r
+    }
+}
+
 static DEC_0_5: LazyLock<BigDecimal> = LazyLock::new(|| BigDecimal::one() / 2);
